@@ -3,7 +3,8 @@
    Proofs/, with Print Assumptions beneath. *)
 Require Import Cherab.Common.Qx.
 Require Import Cherab.Model.C20_Stencil Cherab.Model.C20_Admt.
-Require Import Cherab.Proofs.C20_Stencil Cherab.Proofs.C20_Admt.
+Require Import Cherab.Model.C20_Spacing.
+Require Import Cherab.Proofs.C20_Stencil Cherab.Proofs.C20_Admt Cherab.Proofs.C20_Consistency Cherab.Proofs.C20_Spacing.
 Open Scope Q_scope.
 
 (* every operator maps a constant field to zero, in every cell of every grid >= 2x2 *)
@@ -69,6 +70,31 @@ Theorem C20_admt_isotropic_is_laplacian :
    + (1 / r) * apply (op_row ODx nx ny ix iy dx dy) f ix iy) * s.
 Proof. exact isotropic_operator_is_laplacian. Qed.
 Print Assumptions C20_admt_isotropic_is_laplacian.
+
+(* second-order consistency: for a QUADRATIC flux map and a QUADRATIC field f the operator row of an interior
+   cell applied to f is exactly sqrt(dx dy) * div (D grad f) at the cell centre (the coefficients of the exact
+   derivatives of f are those of the divergence form evaluated at the exact jet of psi) *)
+Theorem C20_admt_exact_on_quadratics_interior :
+  forall nx ny ix iy dx dy x0 y0 a b c d e g aniso r s fa fb fc fd fe fg,
+  (2 <= nx)%Z -> (2 <= ny)%Z -> (0 < ix < nx - 1)%Z -> (0 < iy < ny - 1)%Z -> ~ dx == 0 -> ~ dy == 0 ->
+  let X := xc x0 dx ix in let Y := yc y0 dy iy in
+  let J := exact_jet ix iy dx dy x0 y0 a b c d e g aniso r in
+  ~ normalisation J == 0 -> ~ r == 0 ->
+  apply (admt_row (jet_of (quad dx dy x0 y0 a b c d e g) aniso r nx ny ix iy dx dy) nx ny ix iy dx dy s)
+        (quad dx dy x0 y0 fa fb fc fd fe fg) ix iy ==
+  (eval J div_cx * (fb + 2 * fd * X + fe * Y) + eval J div_cy * (fc + fe * X + 2 * fg * Y)
+   + eval J eDxx * (2 * fd) + 2 * eval J eDxy * fe + eval J eDyy * (2 * fg)) * s.
+Proof. exact admt_exact_on_quadratics_div_form. Qed.
+Print Assumptions C20_admt_exact_on_quadratics_interior.
+
+(* the spacing the code infers from the centres of consecutive voxels is the voxel width (height) for every
+   1-D numbering in which some two consecutive voxels are neighbours along that axis - in particular for the
+   documented column-by-column order of any grid with at least two rows and columns *)
+Theorem C20_spacing_inferred_correctly :
+  forall x0 dx, 0 < dx -> forall cols, has_unit_step cols = true ->
+  exists m, infer_spacing (axis_coords x0 dx cols) = Some m /\ m == dx.
+Proof. exact infer_spacing_correct. Qed.
+Print Assumptions C20_spacing_inferred_correctly.
 
 (* non-vacuity: a concrete 3x4 grid cell and a jet that meet the hypotheses *)
 Example C20_nonvacuous :
